@@ -355,6 +355,27 @@ pub fn gen_raw_intrinsics(rng: &mut Rng) -> GenSource {
     GenSource { format: if anm { Format::Anm } else { Format::Ecl }, game, text, maps: if anm { vec![] } else { vec![ECL_DIFFICULTY_MAP.to_string()] } }
 }
 
+/// Stack ECL (TH10+): include lists with ASCII and non-ASCII names of every length class, a few subs of raw
+/// `@blob` instructions (the harness has no signature knowledge for these games beyond the core mapfile)
+pub fn gen_ecl10(rng: &mut Rng, game: Game) -> GenSource {
+    let names = ["default.ecl", "a.anm", "enemy.anm", "st01.ecl", "\u{3042}.anm", "\u{6575}\u{5f3e}.ecl", "\u{ff71}\u{ff72}.anm", "x", "abcdefghijklmnopqrstuvwxyz0123456789.anm", "\u{535a}\u{9e97}\u{970a}\u{5922}_long_name.ecl"];
+    let list = |rng: &mut Rng| -> String { let n = rng.below(4); (0..n).map(|_| format!("\"{}\"", rng.pick(&names))).collect::<Vec<_>>().join(", ") };
+    let mut text = String::new();
+    if rng.chance(4, 5) { text.push_str(&format!("meta {{ anim: [{}], ecli: [{}] }}\n", list(rng), list(rng))); }
+    let nsubs = 1 + rng.below(3);
+    for i in 0..nsubs {
+        let mut body = String::new();
+        for _ in 0..rng.below(4) {
+            if rng.chance(1, 4) { body.push_str(&format!("+{}:\n", rng.pick(&[1, 10, 60]))); }
+            let len = 4 * rng.below(4);
+            let blob: String = (0..len).map(|k| format!("{:02x}", (k * 13 + i * 7 + 1) % 256)).collect();
+            body.push_str(&format!("    ins_{}(@blob=\"{blob}\");\n", rng.pick(&[0, 1, 10, 23, 40, 300, 1000])));
+        }
+        text.push_str(&format!("void {}() {{\n{body}}}\n", if i == 0 { "main".to_string() } else { format!("sub{i}") }));
+    }
+    GenSource { format: Format::Ecl, game, text, maps: vec![] }
+}
+
 /// the `!difficulty_flags` section of the repository's own map/th06.eclm
 pub const ECL_DIFFICULTY_MAP: &str = "!eclmap\n!difficulty_flags\n0 E-\n1 N-\n2 H-\n3 L-\n4 4-\n5 5-\n6 6-\n7 7-\n";
 
